@@ -183,9 +183,15 @@ impl Remover {
 
                 let current = acc.len();
                 acc.push((marker, Some(current + (end_cursor - start_cursor) + 1)));
-                if start_cursor < end_cursor {
-                    acc.extend(child_markers[start_cursor..end_cursor].to_owned());
-                }
+                // The pair positions of the children are relative to `child_markers`:
+                // rebase them onto `acc`.
+                let kept = start_cursor..end_cursor;
+                acc.extend(child_markers[kept.clone()].iter().map(|(range, pair)| {
+                    let pair = pair
+                        .filter(|p| kept.contains(p))
+                        .map(|p| p - start_cursor + current + 1);
+                    (range.clone(), pair)
+                }));
                 acc.push((end_marker, Some(current)));
             } else {
                 acc.push((marker, None));
